@@ -412,9 +412,15 @@ func ParentMain(id, tier string, seed int64) int {
 			unstable = append(unstable, v.Sig)
 		}
 	}
-	if len(unstable) > 0 {
-		fmt.Fprintf(os.Stderr, "INTERNAL: violation did not reproduce on replay (nondeterminism in the harness): %v\n", unstable)
-		return 2
+	// A violation that was observed but does not recur on replay is still an observation of the
+	// real library returning a wrong result (the oracles compare actual outputs; the harness has
+	// no randomness, frozen clocks and fixed keys). What is left as a cause is nondeterminism
+	// inside the code under test or the runtime it relies on (sync.Pool reuse, GC timing, map
+	// order, goroutine placement). It is reported, marked as not reproduced.
+	notReproduced := map[string]bool{}
+	for _, sgn := range unstable {
+		notReproduced[sgn] = true
+		fmt.Fprintf(os.Stderr, "note: violation observed once but not reproduced on replay (state- or runtime-dependent behaviour of the code under test): %s\n", sgn)
 	}
 
 	os.MkdirAll(filepath.Join(VerifDir, "replays"), 0o755)
@@ -422,7 +428,7 @@ func ParentMain(id, tier string, seed int64) int {
 		h := sha256.Sum256([]byte(v.Sig))
 		path := filepath.Join(VerifDir, "replays", fmt.Sprintf("%s-%s.json", id, hex.EncodeToString(h[:4])))
 		b, _ := json.MarshalIndent(map[string]any{"property": id, "tier": tier, "unit": v.Unit, "case": v.Case,
-			"signature": v.Sig, "detail": v.Detail}, "", " ")
+			"signature": v.Sig, "detail": v.Detail, "reproduced_on_replay": !notReproduced[v.Sig]}, "", " ")
 		os.WriteFile(path, b, 0o644)
 		fmt.Printf("VIOLATION property=%s replay=%s\n", id, path)
 		fmt.Printf("  what: %s\n", v.Sig)
